@@ -5,3 +5,4 @@ import Model.Style
 import Model.History
 import Model.Feed
 import Model.AnsiSpec
+import Model.Cells
